@@ -216,40 +216,85 @@ func (fl *Flow) hasCall(n ast.Node, match func(call *ast.CallExpr) bool) bool {
 // Loop describes a source-level loop: the set of blocks belonging to it.
 type Loop struct {
 	Stmt   ast.Stmt // *ast.ForStmt or *ast.RangeStmt
+	Header *cfg.Block
 	Blocks map[*cfg.Block]bool
 }
 
-// Loops returns the for/range loops of the function with the CFG blocks in their bodies
-// (blocks whose every node lies inside the statement's source range, plus the loop header/post blocks).
+// Loops returns the for/range loops of the function. The blocks of a loop are the natural loop of
+// its header: blocks reachable from the header from which the header is reachable again.
 func (fl *Flow) Loops() []Loop {
 	var loops []Loop
+	preds := map[*cfg.Block][]*cfg.Block{}
+	for _, b := range fl.G.Blocks {
+		for _, s := range b.Succs {
+			preds[s] = append(preds[s], b)
+		}
+	}
 	inspectShallow(fl.F.Body(), func(x ast.Node) bool {
 		switch s := x.(type) {
 		case *ast.ForStmt, *ast.RangeStmt:
 			l := Loop{Stmt: s.(ast.Stmt), Blocks: map[*cfg.Block]bool{}}
-			var body *ast.BlockStmt
-			if fs, ok := s.(*ast.ForStmt); ok {
-				body = fs.Body
-			} else {
-				body = s.(*ast.RangeStmt).Body
-			}
+			var header *cfg.Block
 			for _, b := range fl.G.Blocks {
-				if !b.Live {
-					continue
+				if b.Live && b.Stmt == s && (b.Kind == cfg.KindForLoop || b.Kind == cfg.KindRangeLoop) {
+					header = b
 				}
-				if b.Stmt == s && (b.Kind == cfg.KindForBody || b.Kind == cfg.KindForLoop || b.Kind == cfg.KindForPost ||
-					b.Kind == cfg.KindRangeBody || b.Kind == cfg.KindRangeLoop) {
-					l.Blocks[b] = true
-					continue
-				}
-				inside := len(b.Nodes) > 0
-				for _, n := range b.Nodes {
-					if !(body.Pos() <= n.Pos() && n.End() <= body.End()) {
-						inside = false
+			}
+			if header == nil {
+				for _, b := range fl.G.Blocks {
+					if b.Live && b.Stmt == s && b.Kind == cfg.KindForBody {
+						header = b
 					}
 				}
-				if inside {
-					l.Blocks[b] = true
+			}
+			if header != nil {
+				l.Header = header
+				fwd := map[*cfg.Block]bool{header: true}
+				q := []*cfg.Block{header}
+				for len(q) > 0 {
+					b := q[0]
+					q = q[1:]
+					for _, t := range b.Succs {
+						if !fwd[t] {
+							fwd[t] = true
+							q = append(q, t)
+						}
+					}
+				}
+				bwd := map[*cfg.Block]bool{header: true}
+				q = []*cfg.Block{header}
+				for len(q) > 0 {
+					b := q[0]
+					q = q[1:]
+					for _, t := range preds[b] {
+						if !bwd[t] {
+							bwd[t] = true
+							q = append(q, t)
+						}
+					}
+				}
+				for b := range fwd {
+					if bwd[b] {
+						// restrict to blocks syntactically inside the statement (an enclosing loop's
+						// back edge makes outer blocks mutually reachable too)
+						ok := true
+						if b.Stmt != nil && b != header {
+							if b.Stmt == ast.Stmt(l.Stmt) && (b.Kind == cfg.KindForDone || b.Kind == cfg.KindRangeDone) {
+								ok = false // leaving the loop
+							}
+							if b.Stmt != ast.Stmt(l.Stmt) && within(s, b.Stmt) {
+								ok = false // block of an enclosing statement
+							}
+						}
+						for _, n := range b.Nodes {
+							if !within(n, s) {
+								ok = false
+							}
+						}
+						if ok {
+							l.Blocks[b] = true
+						}
+					}
 				}
 			}
 			loops = append(loops, l)
